@@ -46,6 +46,7 @@ class Client:
         self.script = []              # cli: scripted input lines
         self.finished = False
         self.width = None
+        self.bad_handshake = False
 
     @property
     def st(self):
@@ -319,6 +320,15 @@ class CtlSim:
             self._send(c, json.dumps({"terminal_width": c.width}).encode() + b"\n")
         elif hs == "extra":
             self._send(c, b"  " + json.dumps({"terminal_width": c.width, "foo": "bar"}).encode() + b" \n")
+        elif hs == "garbage":
+            self._send(c, b"hello there\n")
+        elif hs == "nokey":
+            self._send(c, b'{"width": 80}\n')
+        elif hs == "partial":
+            self._send(c, b'{"terminal_wid')
+        if hs not in ("ok", "extra"):
+            self.stats["fault:handshake_" + hs] += 1
+            c.bad_handshake = True
         c.handshake_sent = hs in ("ok", "extra")
 
     def _op_line(self, st):
@@ -575,6 +585,8 @@ class CtlSim:
             c = next((c for c in self.clients.values() if c.st is tr), None)
             if isinstance(exc, ConnectionError) and (c is None or c.gone):
                 continue
+            if c is not None and c.bad_handshake:
+                continue      # a malformed handshake is outside C18 (it is about lines sent after the handshake)
             if exc is None:
                 continue
             self.violate("C18", "session_exception", f"{msg}: {type(exc).__name__}: {exc}" + (f" (client {c.label})" if c else ""))
